@@ -1199,6 +1199,10 @@ type HelperCase struct {
 	// Preset: a Content-Type some earlier code (a middleware, the handler itself) had already put in the response header
 	// before the helper is called; Blob and Stream still send the content type they are given.
 	Preset string `json:"preset,omitempty"`
+	// Via: how the handler got the context it calls the helper on: "" the one ServeHTTP runs it with; "clonewith" a copy made
+	// with CloneWith(c.Writer(), c.Request()) by a middleware; "lookup" the one Router.Lookup hands out for a writer of the
+	// caller's. All three write to the same kind of fox writer over the same underlying writer.
+	Via string `json:"via,omitempty"`
 }
 
 func (c *HelperCase) String() string {
@@ -1207,6 +1211,9 @@ func (c *HelperCase) String() string {
 		lim = fmt.Sprintf("%d byte(s)", c.Limit)
 	}
 	pre := fmt.Sprintf("%s request, underlying writer %q accepting %s; ", c.Method, c.Writer, lim)
+	if c.Via != "" {
+		pre += fmt.Sprintf("context obtained through %s; ", c.Via)
+	}
 	if c.Preset != "" {
 		pre += fmt.Sprintf("response header already holds Content-Type %q; ", c.Preset)
 	}
@@ -1335,10 +1342,30 @@ func runHelper(fam *family, c *HelperCase) (out *helperOut, err error) {
 				c, out.obs, co.codes, len(co.body), tr)
 		}
 	}
-	if _, e := f.Handle(c.Method, "/dir/x", handler); e != nil {
+	registered := fox.HandlerFunc(handler)
+	if c.Via == "clonewith" {
+		registered = func(fc fox.Context) {
+			cp := fc.CloneWith(fc.Writer(), fc.Request())
+			defer cp.Close()
+			handler(cp)
+		}
+	}
+	if _, e := f.Handle(c.Method, "/dir/x", registered); e != nil {
 		return nil, fmt.Errorf("Handle: %v", e)
 	}
-	f.ServeHTTP(fam.mk(co), httptest.NewRequest(c.Method, "/dir/x", nil))
+	if c.Via == "lookup" {
+		// an earlier, ordinary request leaves its state in the pooled context the look-up is going to reuse
+		f.ServeHTTP(httptest.NewRecorder(), httptest.NewRequest("PUT", "/other", nil))
+		req := httptest.NewRequest(c.Method, "/dir/x", nil)
+		rte, cc, _ := f.Lookup(fox.NewTestContextOnly(fam.mk(co), req).Writer(), req)
+		if rte == nil {
+			return nil, fmt.Errorf("Lookup found no route")
+		}
+		handler(cc)
+		cc.Close()
+	} else {
+		f.ServeHTTP(fam.mk(co), httptest.NewRequest(c.Method, "/dir/x", nil))
+	}
 	if !ran {
 		return nil, fmt.Errorf("the handler was not run")
 	}
@@ -1365,6 +1392,9 @@ func checkHelper(c *HelperCase, count bool) error {
 	if count {
 		stats.Class("helper:" + c.Helper)
 		stats.Class("helper-writer:" + fam.Name)
+		if c.Via != "" {
+			stats.Class("helper-context-via:" + c.Via)
+		}
 		partial := c.Limit >= 0 && c.Helper != "Redirect" && out != nil && helperPayloadLen(c) > c.Limit
 		if c.Helper == "Redirect" && (c.Code < 300 || c.Code > 308) {
 			stats.Class("helper:Redirect-rejected-code")
@@ -1418,6 +1448,7 @@ func genHelper(t *rapid.T) *HelperCase {
 		hs = []string{"String", "Blob", "Redirect"}
 	}
 	c.Helper = gen.Pick(t, hs, "helper")
+	c.Via = gen.Pick(t, []string{"", "", "clonewith", "lookup"}, "via")
 	c.Code = gen.Pick(t, helperCodes, "code")
 	c.Preset = gen.Pick(t, []string{"", "", "application/x-preset", "text/plain; charset=utf-8", "application/x-one|text/x-two", "shared:application/x-default"}, "preset")
 	switch c.Helper {
